@@ -196,6 +196,23 @@ class SchedLock(object):
         if self.owner is me:
             self.depth += 1
             return True
+        if blocking and timeout is not None and timeout >= 0:
+            # a TIMED wait: the explorer may let the timeout expire whenever the lock is held by
+            # another thread (any finite timeout can be outlasted by a slow holder), so the thread
+            # stays enabled; scheduled while the lock is still held = the wait timed out
+            s.point('lock.acquire.timed')
+            if self.owner is not None and self.owner is not me:
+                return False
+            self.owner = me
+            self.depth = 1
+            return True
+        if not blocking:
+            s.point('lock.acquire.try')
+            if self.owner is not None and self.owner is not me:
+                return False
+            self.owner = me
+            self.depth = 1
+            return True
         # parked here the thread counts as disabled while another thread holds the lock
         me.wants = self
         try:
